@@ -1698,6 +1698,11 @@ func runScenario(seed int64, n int, out *bufio.Writer, kind string, suffix strin
 		}
 		h.settle(40, 0)
 		if r.Intn(2) == 0 {
+			// one more change is submitted just before the device comes back: its validation and commit run while the
+			// configuration controller re-synchronises (and inside its device calls, see interfere)
+			h.nbSet([]op{{target: t, path: env.Pick(r, paths), val: fmt.Sprintf("v%d", r.Intn(1000))}}, false, false)
+		}
+		if r.Intn(2) == 0 {
 			// the first request of the re-push is answered PermissionDenied (the device has seen a higher election id for
 			// a moment): the re-synchronisation is not complete, the target must not be reported synchronized
 			h.policy[t] = append(h.policy[t], codes.PermissionDenied)
